@@ -256,6 +256,10 @@ func (osObj *VirtualOS) SetArgs(args []string) {
 }
 
 func (osObj *VirtualOS) Chdir(dir string) error {
+	// A relative directory is relative to the current working directory
+	if !filepath.IsAbs(dir) {
+		dir = filepath.Join(osObj.cwd, dir)
+	}
 	osObj.cwd = dir
 	return nil
 }
